@@ -879,11 +879,87 @@ func (e *Engine) Run(t *core.Tape, cfg *core.Config, st *core.Stats) *core.Viola
 			return core.Violationf("read-error-ignored", "%s: Load returned a function and no error\ninput: %s", what, quoteShort(src))
 		}
 	}
+	// 6. the Lua-level loader with a reader function, on a state that is kept across runs: a load whose reader fails
+	// part-way (raises an error, or returns something that is not a string), then a complete load of the same text.
+	// What a failed load saw must not leak into the next one.
+	if t.Choose(3) == 0 && len(src) > 0 && len(src) < 20000 {
+		baseOnce.Do(func() {
+			baseL = lua.NewState(lua.Options{SkipOpenLibs: true})
+			baseL.Push(baseL.NewFunction(lua.OpenBase))
+			baseL.Push(lua.LString(lua.BaseLibName))
+			baseL.Call(1, 0)
+		})
+		B := baseL
+		piece := 1 + t.Choose(40)
+		nPieces := (len(src) + piece - 1) / piece
+		failAt := -1
+		failKind := 0
+		deliver := func() (v verdict) {
+			i := 0
+			rd := B.NewFunction(func(L *lua.LState) int {
+				if i == failAt {
+					i++
+					if failKind == 0 {
+						L.RaiseError("SIMDISK: the reader function failed")
+					}
+					L.Push(L.NewTable()) // not a string
+					return 1
+				}
+				if i*piece >= len(src) {
+					L.Push(lua.LNil)
+					return 1
+				}
+				end := (i + 1) * piece
+				if end > len(src) {
+					end = len(src)
+				}
+				L.Push(lua.LString(src[i*piece : end]))
+				i++
+				return 1
+			})
+			defer func() {
+				if r := recover(); r != nil {
+					v = verdict{class: "escape", detail: fmt.Sprintf("Go panic left load(): %v", r)}
+				}
+			}()
+			top := B.GetTop()
+			defer B.SetTop(top)
+			if err := B.CallByParam(lua.P{Fn: B.GetGlobal("load"), NRet: 2, Protect: true}, rd, lua.LString("<sim>")); err != nil {
+				return verdict{ok: true, class: "raised", detail: firstN(err.Error(), 200)}
+			}
+			if fn, ok := B.Get(-2).(*lua.LFunction); ok && fn.Proto != nil {
+				return verdict{ok: true, class: "function", hLines: protoHash(fn.Proto, true)}
+			}
+			return verdict{ok: true, class: "syntax", detail: firstN(B.Get(-1).String(), 200)}
+		}
+		// the failing delivery first
+		failAt, failKind = t.Choose(nPieces+1), t.Choose(2)
+		v1 := deliver()
+		st.Evals++
+		st.Fault("reader_function_fails")
+		if !v1.ok {
+			return core.Violationf(v1.class, "source %s mutation %s, load() with a reader function that fails at piece %d of %d: %s\ninput: %s", srcName, mutDesc, failAt, nPieces, v1.detail, quoteShort(src))
+		}
+		failedAt := failAt
+		failAt = -1
+		v2 := deliver()
+		st.Evals++
+		if !v2.ok {
+			return core.Violationf(v2.class, "source %s mutation %s, load() with a reader function: %s\ninput: %s", srcName, mutDesc, v2.detail, quoteShort(src))
+		}
+		if v2.class != base.class || v2.hLines != base.hLines {
+			return core.Violationf("earlier-load-leaks", "source %s mutation %s: Load gives %s (%s); load() with a reader function in pieces of %d bytes, called after a load() whose reader had failed at piece %d of %d (outcome: %s %s), gives %s (%s)\ninput: %s",
+				srcName, mutDesc, base.class, base.detail, piece, failedAt, nPieces, v1.class, v1.detail, v2.class, v2.detail, quoteShort(src))
+		}
+	}
 	if st.WantSample() {
 		st.Sample(map[string]interface{}{"source": srcName, "mutation": mutDesc, "bytes": len(src), "verdict": base.class, "head": firstN(src, 120)})
 	}
 	return nil
 }
+
+var baseOnce sync.Once
+var baseL *lua.LState
 
 // compileEdgeProgram wraps a payload that exercises a compile-time check in a
 // random nesting of blocks and functions with a random number of surrounding
